@@ -151,11 +151,11 @@ template<typename T> inline uintptr_t addr_any(const tainted<T*, S>& t) { return
 // --------------------------------------------------- to-application positions
 // each returns the application address RLBox produced for guest repr r
 enum ToApp { A_CELL, A_CELL_UNVERIFIED, A_ARR_ELEM, A_ARR_WHOLE, A_FIELD, A_STRUCT_WHOLE, A_STRUCT_ARR, A_NESTED, A_NESTED_WHOLE, A_CONSTCHAR,
-             A_INVOKE_RESULT, A_CALLBACK_ARG, A_PTRPTR, A_CV_ADDRESS, A_CV_STRUCT, A_STRUCT_RESULT, A_REINTERPRET_TV, A_OPAQUE_RESULT, A_NTOAPP };
+             A_INVOKE_RESULT, A_CALLBACK_ARG, A_PTRPTR, A_CV_ADDRESS, A_CV_STRUCT, A_STRUCT_RESULT, A_REINTERPRET_TV, A_OPAQUE_RESULT, A_STRUCT_CELL_UNVERIFIED, A_STRUCT_CELL_SAFE_BECAUSE, A_NTOAPP };
 inline const char* toapp_name[] = { "load-cell", "load-cell-unverified", "load-array-element", "load-whole-array", "load-struct-field", "load-whole-struct",
                                     "load-whole-struct-array-field", "load-nested-field", "load-whole-struct-nested", "load-const-char-field", "invoke-result", "callback-argument",
                                     "deref-pointer-to-pointer", "copy_and_verify_address", "copy_and_verify-struct-pointer", "by-value-struct-result", "reinterpret-cast-of-volatile",
-                                    "invoke-result-to-opaque" };
+                                    "invoke-result-to-opaque", "struct-cell-UNSAFE_unverified", "struct-cell-unverified_safe_because" };
 
 inline uintptr_t to_app(Inst& in, ToApp pos, uint64_t r, int idx = 0)
 {
@@ -226,6 +226,17 @@ inline uintptr_t to_app(Inst& in, ToApp pos, uint64_t r, int idx = 0)
       auto o = Wd::invoke<int*(int*)>(sb, "echo_ptr", nullptr).to_opaque();
       ret_on = false;
       return addr_of(from_opaque(o));
+    }
+    // the unwrappers applied directly to a sandbox-resident struct: a plain application struct comes back
+    case A_STRUCT_CELL_UNVERIFIED: {
+      Wd::wr<P>(sb, Inst::STRUCT + offsetof(GPS, ptr), rp);
+      PS plain = Wd::tptr<PS>(sb, Inst::STRUCT)->UNSAFE_unverified();
+      return reinterpret_cast<uintptr_t>(plain.ptr);
+    }
+    case A_STRUCT_CELL_SAFE_BECAUSE: {
+      Wd::wr<P>(sb, Inst::STRUCT + offsetof(GPS, arr) + (idx % 3) * sizeof(P), rp);
+      PS plain = (*Wd::tptr<PS>(sb, Inst::STRUCT)).unverified_safe_because("monitor");
+      return reinterpret_cast<uintptr_t>(plain.arr[idx % 3]);
     }
     case A_CALLBACK_ARG: {
       cbarg_on = true;
